@@ -423,11 +423,7 @@ func C06() int {
 
 	c.Set("flag_sets", flagNames(fsets))
 	c.Set("runs_onto_an_existing_longer_output_file", staleRuns)
-	nrace := s.RaceReports()
-	c.Set("race_reports", nrace)
-	if nrace > 0 {
-		c.Violation("data-race", fmt.Sprintf("%d race reports were written during these runs (see GORACE log)", nrace), nil)
-	}
+	raceVerdict(s, c)
 	if c.Counter("histories") < 50 || c.Counter("channel_runs") < 1200 {
 		c.Inconclusive("too few histories / channel runs")
 	}
